@@ -162,8 +162,6 @@ Proof.
   - (* Cls *) destruct (nth_error input p) as [c|]; [|constructor; exact Hs].
     destruct (mem i c); [apply SP_once|constructor]; exact Hs.
   - (* Capture *) destruct Hf as [Hg Hf].
-    destruct (if hb then set_sb g (Some p) s else Some s) as [s0|] eqn:E0; [|constructor].
-    assert (H0 : Q s0) by (destruct hb; [eapply Q_sb; eauto|injection E0 as <-; exact Hs]).
     apply SP_map_yield; [apply IHo; auto|].
     intros q s1 s4 E Hs1.
     set (s2 := if Nat.leb (pcount (cs_ s1)) g then set_pcount (S g) s1 else s1) in E.
